@@ -22,7 +22,8 @@ ASSUMPTIONS = ['reference prices: long liq = entry*(1 - 1/L + 0.004), bankruptcy
                'the same floating-point order as documented',
                'range of a minute = open-normalised input candle; of a chunk = union of its minutes']
 MIN_OBS = {'liquidation_checks_with_open_position': 3000, 'liquidations': 150, 'near_misses': 60, 'exact_touches': 40,
-           'protective_stop_wins': 40, 'control_sessions': 100, 'one_ulp_cases': 60}
+           'protective_stop_wins': 40, 'control_sessions': 100, 'one_ulp_cases': 60,
+           'liquidation_checks_on_reentered_position': 300}
 LEVS = [1, 2, 3, 5, 10, 25, 50, 100, 125]
 PATTERNS = ['near_miss', 'ulp_short', 'touch', 'ulp_beyond', 'overshoot', 'gap_jump']
 
@@ -75,6 +76,8 @@ def build(job):
     # approach: a few calm candles drifting part of the way
     cur = float(rows[-1][2])
     steps = rng.randint(2, 5)
+    if job.get('reentry') and rng.random() < 0.5:
+        steps = 0                       # the deciding candle is the first one the re-entered position lives through
     target_pre = liq - sign * abs(liq - cur) * 0.5       # half way, still safe
     for j in range(steps):
         nxt = cur + (target_pre - cur) * (j + 1) / steps
@@ -135,6 +138,11 @@ def build(job):
               'sl': None, 'tp': None, 'cancel_policy': 'never', 'p_update': 0.0}
     if avg:
         script['add_at'] = [m_idx + 1]
+    if job.get('reentry'):
+        # not the first trade of the session: an earlier position (opened one bar before) is closed at market in the entry
+        # bar and the strategy re-enters in that same bar, so the judged position lives on an object that has been closed once
+        script['enter_at'] = [m_idx - 1, m_idx]
+        script['close_at'] = [m_idx]
     if job['stop']:
         script['sl'] = 0.5 * (1 / lev - 0.004) if lev > 1 else 0.4
     if job.get('partial_tp') and job.get('close_mode') == 'recover_profit' and pattern != 'gap_jump' and job.get('mode') != 'spot':
@@ -199,8 +207,11 @@ def check_trace(events, arr, cfg, job):
     fee = cfg['fee']
     cur = None
     in_liq_orders = []
+    n_closed = 0
     for e in events:
         k = e['k']
+        if k == 'trade_closed':
+            n_closed += 1
         if k == 'liq_enter':
             cur = {'enter': e, 'submits': [], 'execs': []}
         elif cur is not None and k == 'submit':
@@ -226,6 +237,8 @@ def check_trace(events, arr, cfg, job):
             lo, hi = float(rows[:, 4].min()), float(rows[:, 3].max())
             if qty != 0:
                 c('liquidation_checks_with_open_position')
+                if job.get('reentry') and n_closed > 0:
+                    c('liquidation_checks_on_reentered_position')
                 side = 'long' if qty > 0 else 'short'
                 liq, bankr = ref_prices(pos['entry'], lev, side)
                 must = mode == 'isolated' and lo <= liq <= hi
@@ -319,6 +332,7 @@ def make_jobs(tier, seed):
                          'stop': stop, 'fast': fast, 'mode': mode, 'averaged': rng.random() < 0.3,
                          'tf': rng.choice(['1m', '1m', '5m']), 'fee': rng.choice([0, 0.0005, 0.001]),
                          'close_mode': rng.choice(['half', 'half', 'recover_profit', 'at_extreme']),
-                         'resting_tps': rng.choice([0, 0, 3, 4]), 'partial_tp': rng.random() < 0.5, 'callback_market': rng.random() < 0.5, 'wick_gap': rng.random() < 0.3})
+                         'resting_tps': rng.choice([0, 0, 3, 4]), 'partial_tp': rng.random() < 0.5, 'callback_market': rng.random() < 0.5, 'wick_gap': rng.random() < 0.3,
+                         'reentry': rng.random() < 0.35})
             i += 1
     return jobs
